@@ -8,6 +8,8 @@ import numpy as np
 from . import methods as M
 from .common import Disagreement, drive, q, qs, parse_qs, ROOT
 
+EPS = float(np.finfo(float).eps)
+
 PROP_MODULE = 'PbVerif.Props.C20'
 RULE = ('cases = (grid shape incl. M = N and sides down to diff_order+2, diff_order per axis, num_eigens from diff_order+1 to full per axis, '
         'lam per axis, weight matrices, hosts): _make_btwb / rhs / reconstruction / eigen-penalty of WhittakerSystem2D and PSpline2D vs the '
@@ -57,6 +59,48 @@ def galerkin_tol(v, dr, dc, lamr, lamc, Y, W):
     eps = np.finfo(float).eps
     scale = float(np.max(np.abs(W * Y))) + 1e-300
     return 1e-8 + 200 * eps * (lamr * 4.0 ** dr + lamc * 4.0 ** dc) * float(np.max(np.abs(v))) / scale
+
+
+def dof_problem(host, x, z, Y, lam, d, eig, kw):
+    """(status, message): runs the 2-D host with `return_dof=True`; the reported degrees of freedom must be the diagonal of
+    (B'WB + P)^-1 B'WB for B = kron of the system's own retained eigenvectors, P its penalty and W the RETURNED weights"""
+    from pybaselines import Baseline2D
+    from pybaselines.two_d import _whittaker_utils as wu
+    seen = []
+    orig = wu.WhittakerSystem2D._calc_dof
+
+    def rec(obj, weights, *a, __orig=orig, **k):
+        out = __orig(obj, weights, *a, **k)
+        seen.append((np.array(obj.basis_r, copy=True), np.array(obj.basis_c, copy=True), np.array(obj.penalty, copy=True)))
+        return out
+    wu.WhittakerSystem2D._calc_dof = rec
+    try:
+        with np.errstate(all='ignore'):
+            bb, pp = getattr(Baseline2D(x, z), host)(Y, lam=tuple(lam), diff_order=tuple(d), num_eigens=tuple(eig), return_dof=True, **kw)
+    except Exception as ex:      # noqa: BLE001
+        return 'raised:' + type(ex).__name__, None
+    finally:
+        wu.WhittakerSystem2D._calc_dof = orig
+    if 'dof' not in pp or not seen or not np.all(np.isfinite(pp['weights'])):
+        return 'absent', None
+    Ur, Uc, pen = seen[-1]
+    B = np.kron(Ur, Uc)
+    Wret = np.asarray(pp['weights'], dtype=float).reshape(-1)
+    btwb = B.T @ (Wret[:, None] * B)
+    lhs = btwb + np.diag(np.asarray(pen, dtype=float).reshape(-1))
+    try:
+        want = np.linalg.solve(lhs, btwb).diagonal().reshape(np.shape(pp['dof']))
+        cond = float(np.linalg.cond(lhs))
+    except np.linalg.LinAlgError:
+        return 'singular', None
+    if cond >= 1e10:
+        return 'ill-conditioned', None
+    tol_d = max(1e-9, 1e3 * EPS * cond)
+    got = np.asarray(pp['dof'], dtype=float)
+    if not np.allclose(got, want, rtol=tol_d, atol=tol_d):
+        return 'ok', (f"the reported degrees of freedom are not diag((B'WB + P)^-1 B'WB) for the returned weights "
+                      f'(max diff {float(np.max(np.abs(got - want))):.3g}, allowed {tol_d:.2g})')
+    return 'ok', None
 
 
 def correspond(ctx):
@@ -207,6 +251,33 @@ def correspond(ctx):
         if not np.allclose(b1, b2, rtol=0, atol=1e-6 * max(1.0, float(np.max(np.abs(b2))))):
             dis.append(Disagreement('c20.full', f'host:{host}', f'2-D {host} with all eigenvectors differs from the direct solution by {float(np.max(np.abs(b1 - b2))):.3g} '
                                     f'(shape {(m, n)}, diff_order {(dr, dc)})', {'kind': 'host', 'host': host, 'shape': [m, n]}, True))
+    # ---- (b2) the effective degrees of freedom reported in the eigenbasis (`return_dof=True`) are the diagonal of
+    # (B'WB + P)^-1 B'WB for B = the Kronecker product of the retained eigenvectors and W = the RETURNED weights (recomputed
+    # densely from the system object's own eigenvectors, so that the arbitrary basis of the penalty's null space does not matter)
+    reg2 = M.registry(True)
+    dof_hosts = [nm for nm, e in sorted(reg2.items()) if 'return_dof' in e['params'] and 'num_eigens' in e['params']]
+    for host in dof_hosts:
+        for mode in ('exhausted', 'converged', 'first-solve'):
+            if not ctx.thorough and rng.random() < 0.4:
+                continue
+            m, n = int(rng.integers(7, 12)), int(rng.integers(7, 12))
+            dr, dc = int(rng.integers(1, 4)), int(rng.integers(1, 4))
+            kr, kc = int(rng.integers(dr + 1, m + 1)), int(rng.integers(dc + 1, n + 1))
+            x, z, Y = M.make_data2d(rng, m, n)
+            kw = {'exhausted': dict(max_iter=2, tol=0.0), 'converged': dict(max_iter=80, tol=1e-2), 'first-solve': dict(tol=np.inf)}[mode]
+            if 'tol_2' in reg2[host]['params']:
+                kw['tol_2'] = kw['tol']
+            lam = (float(10.0 ** int(rng.integers(0, 4))), float(10.0 ** int(rng.integers(0, 4))))
+            st, msg = dof_problem(host, x, z, Y, lam, (dr, dc), (kr, kc), kw)
+            if st != 'ok':
+                ctx.count('dof-' + st)
+                continue
+            ctx.case(('dof', host, mode, m, n, dr, dc, kr, kc), nontrivial=True)
+            ctx.count('dof:' + mode)
+            if msg:
+                dis.append(Disagreement('c20.dof', f'dof:{host}', f'2-D {host} ({mode}, shape {(m, n)}, diff_order {(dr, dc)}, num_eigens {(kr, kc)}, lam {lam}): {msg}',
+                                        {'kind': 'dof', 'host': host, 'mode': mode, 'shape': [m, n], 'd': [dr, dc], 'eig': [kr, kc], 'lam': list(lam),
+                                         'x': x.tolist(), 'z': z.tolist(), 'data': Y.tolist(), 'kw': {k: (str(v) if not np.isfinite(v) else v) for k, v in kw.items()}}, True))
     # ---- (c) individual_axes = the 1-D method along the requested axes in order: the Lean planner (Model/Axes.lean) says which 1-D
     # fits are made (axis, coordinate vector, keyword arguments, order); the plan is executed with direct calls of the real 1-D method
     # and compared with the real individual_axes; the Lean semantics of the plan (oracle: Baseline(c).mor) is compared exactly
@@ -425,6 +496,9 @@ def search(ctx, hints, lean_failed):
 def replay(ctx, data):
     from pybaselines.two_d import _whittaker_utils as wu
     r = data['replay']
+    if r.get('kind') == 'dof':
+        kw = {k: (float(v) if isinstance(v, str) else v) for k, v in r['kw'].items()}
+        return dof_problem(r['host'], np.array(r['x']), np.array(r['z']), np.array(r['data']), r['lam'], r['d'], r['eig'], kw)[1]
     if r.get('kind') != 'solve':
         return None
     try:
